@@ -15,6 +15,10 @@ import NeoFS.Driver.SigChain
 import NeoFS.Driver.Policer
 import NeoFS.Driver.ACL
 import NeoFS.Driver.Token
+import NeoFS.Driver.Put
+import NeoFS.Driver.Validate
+import NeoFS.Driver.WCFlush
+import NeoFS.Driver.WCSched
 open NeoFS NeoFS.Driver
 
 /-- State of all stateful models; pure models need none. -/
@@ -26,6 +30,7 @@ structure DState where
   gc : NeoFS.Driver.GCState := {}
   pol : NeoFS.Policer.Cluster := {}
   acl : NeoFS.Driver.ACLSt := {}
+  wcr : NeoFS.WCFlush.St := {}
 
 def stepLine (s : DState) (line : String) : DState × String :=
   let o := parseOp line
@@ -39,6 +44,10 @@ def stepLine (s : DState) (line : String) : DState × String :=
   | "gov" => (s, govStep o)
   | "dump" => (s, dumpStep o)
   | "wc" => let (w, out) := wcStep s.wc o; ({ s with wc := w }, out)
+  | "put" => (s, putStep o)
+  | "validate" => (s, validateStep o)
+  | "wcread" => let (w, out) := wcreadStep s.wcr o; ({ s with wcr := w }, out)
+  | "wcsched" => (s, wcschedStep o)
   | "wire" => (s, wireStep o)
   | "sigchain" => (s, sigchainStep o)
   | "policer" => let (p, out) := policerStep s.pol o; ({ s with pol := p }, out)
